@@ -315,10 +315,26 @@ func vfGenPath(t *rapid.T, label string, o vfGenOpts) vfPath {
 func vfGenServer(t *rapid.T, o vfGenOpts) vfServer {
 	s := vfServer{}
 	nr := rapid.IntRange(1, 4).Draw(t, "nrules")
+	// "stacked" rule sets: every rule matches the same hosts, the leading ones carry IP filters and
+	// paths that rarely match, so requests fall through several filtered rules before being routed
+	stacked := o.IPFilters && rapid.IntRange(0, 3).Draw(t, "stacked") == 0
+	if stacked {
+		nr = rapid.IntRange(3, 5).Draw(t, "nrules-stacked")
+	}
 	for i := 0; i < nr; i++ {
 		r := vfRule{}
 		l := fmt.Sprintf("r%d", i)
-		switch rapid.IntRange(0, 5).Draw(t, l+".hostkind") {
+		hk := rapid.IntRange(0, 5).Draw(t, l+".hostkind")
+		if stacked {
+			hk = rapid.SampledFrom([]int{0, 0, 6, 7}).Draw(t, l+".hostkind-stacked")
+		}
+		switch hk {
+		case 6:
+			r.Host = "a.com"
+		case 7:
+			r.HostRegexp = "a"
+		}
+		switch hk {
 		case 0: // match all
 		case 1, 2:
 			r.Host = rapid.SampledFrom(append(vfHostsBare, "::1")).Draw(t, l+".host")
@@ -341,8 +357,11 @@ func vfGenServer(t *rapid.T, o vfGenOpts) vfServer {
 			}
 			r.Paths = append(r.Paths, p)
 		}
-		if o.IPFilters && rapid.IntRange(0, 2).Draw(t, l+".hasipf") == 0 {
+		if o.IPFilters && (rapid.IntRange(0, 2).Draw(t, l+".hasipf") == 0 || (stacked && i < nr-1)) {
 			r.IPF = vfGenIPF(t, l+".ipf", o.IPPool)
+		}
+		if stacked && i < nr-1 && rapid.Bool().Draw(t, l+".nopaths") {
+			r.Paths = nil
 		}
 		s.Rules = append(s.Rules, r)
 	}
